@@ -209,6 +209,22 @@ fn apply_inner<V: VirtualFileSystem>(v: &V, op: &Op) -> Out {
                     ChmodSel::Dirs(m) => b.dirs(*m),
                     ChmodSel::Files(m) => b.files(*m),
                     ChmodSel::Sym(s) => b.sym(s),
+                    ChmodSel::Mix { dirs, files, sym, sym_first } => {
+                        let mut b = b;
+                        if *sym_first {
+                            b = b.sym(sym);
+                        }
+                        if *dirs != 0 {
+                            b = b.dirs(*dirs);
+                        }
+                        if *files != 0 {
+                            b = b.files(*files);
+                        }
+                        if !*sym_first {
+                            b = b.sym(sym);
+                        }
+                        b
+                    },
                 };
                 b = if o.recursive { b.recurse() } else { b.no_recurse() };
                 if o.follow {
@@ -281,6 +297,22 @@ fn apply_inner<V: VirtualFileSystem>(v: &V, op: &Op) -> Out {
                             ChmodSel::Dirs(m) => b.dirs(*m),
                             ChmodSel::Files(m) => b.files(*m),
                             ChmodSel::Sym(s) => b.sym(s),
+                            ChmodSel::Mix { dirs, files, sym, sym_first } => {
+                                let mut b = b;
+                                if *sym_first {
+                                    b = b.sym(sym);
+                                }
+                                if *dirs != 0 {
+                                    b = b.dirs(*dirs);
+                                }
+                                if *files != 0 {
+                                    b = b.files(*files);
+                                }
+                                if !*sym_first {
+                                    b = b.sym(sym);
+                                }
+                                b
+                            },
                         };
                         b = if o.recursive { b.recurse() } else { b.no_recurse() };
                         if o.follow {
